@@ -1,13 +1,14 @@
-\* trace acceptor constants (unused by the contract)
-SPECIFICATION TSpec
+\* random deep plans (tlc -simulate): cfg with seeds + 5 steps on one writer: learn steps, calls and concurrent pairs naming object classes and epochs
+SPECIFICATION Spec
 CHECK_DEADLOCK FALSE
 
+INVARIANTS PlanOut
 CONSTANTS
-  MaxOps = 100
+  MaxOps = 6
   Kinds = {"insert", "delete", "dropcoll", "droppart", "tick", "import"}
-  MaxLen = 4
-  ParKinds = {"insert", "delete", "dropcoll", "droppart", "tick", "import"}
-  ParMaxLen = 4
+  MaxLen = 2
+  ParKinds = {"insert", "delete", "tick"}
+  ParMaxLen = 1
   WithCall = TRUE
   WithPar = TRUE
   Salts = {1}
